@@ -193,6 +193,17 @@ def c09(ctx):
     # random real isometries: Solver contract (forward / link poses, answers map back, ordering, J6) behind stacks
     ev, viols = solver_trace(ctx, "C09", 6 if ctx.quick else 12)
     solver_report(ctx, ev, viols, "C09")
+    # both constructors of a robot with shape build the stack Tool(Base(robot)): forward = base * robot * tool, link
+    # poses pre-multiplied by the base (C11's trace spec, the two clauses that speak about the stack)
+    opwv(ctx, ["record", "shape", ctx.path("shape.trace")])
+    sviols, _ = trace_validate(ctx, "Trace_Shape", ctx.path("shape.trace"))
+    sev = read_ndjson(ctx.path("shape.trace"))
+    for v in sviols:
+        e = sev[v["l"] - 1]
+        for c in v["clause"]:
+            if c in ("C11:forward-differs-from-stack", "C11:link-poses-differ-from-stack"):
+                ctx.violation("C09:shape:%s:%s" % (c.split(":", 1)[1], e.get("ctor")), "shape event #%d %s" % (v["l"], json.dumps(e)[:600]), e)
+    ctx.evaluations += len(sev)
     ctx.exhaustive = True
     return finish(ctx, rule="every stack of Tool/Frame/Base layers up to depth MaxDepth over the lattice isometries Isos "
                   "(plus LinearAxis/Gantry mounts) x leaf configurations, generated by TLC one Wrap action at a time with the "
@@ -314,6 +325,15 @@ def c04(ctx):
         if "continuing" in e.get("entry", "") and any(c in ("C11:not-the-ordered-subsequence", "C11:answers-altered") for c in v["clause"]):
             ctx.violation("C04:order-lost-by-the-collision-filter:%s" % e["entry"], "shape event #%d %s" % (v["l"], json.dumps(e)[:600]), e)
     ctx.evaluations += len(sev)
+    # ... and the convenience entry of a frame: forward_transformed(taught point, previous) orders by PREVIOUS
+    opwv(ctx, ["record", "ftrans", ctx.path("ftrans.trace")])
+    fviols, _ = trace_validate(ctx, "Trace_Frame", ctx.path("ftrans.trace"))
+    fev = read_ndjson(ctx.path("ftrans.trace"))
+    for v in fviols:
+        if "C17:answers-not-ordered-by-closeness" in v["clause"]:
+            e = fev[v["l"] - 1]
+            ctx.violation("C04:forward-transformed-not-ordered-by-previous", "ftrans event #%d %s" % (v["l"], json.dumps(e)[:600]), e)
+    ctx.evaluations += len(fev)
     ctx.extra["history_events"] = sum(1 for e in ev if e["ev"] == "follow")
     ctx.extra["histories"] = sum(1 for e in ev if e["ev"] == "reset")
     return finish(ctx, rule=SOLVER_RULE + "; histories: dense sinusoidal joint-space trajectories followed with "
